@@ -30,8 +30,9 @@ _local_timezone = None
 def get_local_timezone() -> Timezone | FixedTimezone:
     global _local_timezone
 
-    if _mock_local_timezone is not None:
-        return _mock_local_timezone
+    mock = _mock_local_timezone
+    if mock is not None:
+        return mock
 
     if _local_timezone is None:
         tz = _get_system_timezone()
